@@ -22,6 +22,14 @@ func init() { register("C14", checkC14) }
 // MC_Cli (TLC) enumerates the full product of command-line shapes of JqCli
 // (among them: two file arguments that are the same path) x
 // the possible library results and emits for each what the binary must show.
+// A shape the wrapper refuses by itself (unusable input, -o with several
+// inputs) is crossed with every point at which the program may `exit`
+// (never / BEGIN / first / second input; JqCli StopOf, OpensAll, LawStop):
+// the refusal may not depend on whether the program would have read the
+// input.  -o FILE is crossed with what FILE is: a path of its own or the
+// input file itself (same string, ./ spelling, symbolic link, hard link;
+// JqCli AliasOf, ReadsOriginal, LawInPlace): the evaluator must have read the
+// document before FILE is written.
 // Every shape is materialised with a pool of (program, selectors, inputs)
 // triples in a temp dir and run on the compiled binary; the library result is
 // obtained from lang.EvalProgram + GetRootJson in a worker on the same
@@ -1009,5 +1017,5 @@ func checkC14(c *Ctx) {
 	c.Count("library_runs", int64(len(libJobs)))
 	c.Set("exhaustive", true)
 	c.Set("rule", "one case per (command-line shape, triple, variant) run on the binary and compared with the model's row for the library's result on the same program, selectors and bytes; all are non-trivial; distinct by (shape, triple, variant)")
-	c.Set("checker_cmd", "tlc MC_Cli (324 command-line shapes x 3 library results) -> out/bin/jqawk vs lang.EvalProgram + GetRootJson")
+	c.Set("checker_cmd", "tlc MC_Cli (816 command lines: 324 shapes, refusals x stops of the program, -o naming the input; x 3 library results) -> out/bin/jqawk vs lang.EvalProgram + GetRootJson")
 }
